@@ -16,7 +16,10 @@ from checks import register
 
 POOLS = {
  # name: (profile, allow, scenarios quick, scenarios thorough, first seed offset)
- "general": ("general", "", 360, 6000, 0),
+ "general": ("general", "", 240, 5000, 0),
+ "members": ("members", "", 144, 3000, 20000),
+ "life": ("life", "", 144, 3000, 40000),
+ "hand": ("hand", "", 144, 3000, 60000),
 }
 
 
